@@ -804,6 +804,26 @@ func funcOfValue(v ssa.Value) *ssa.Function {
 		if f, ok := x.Fn.(*ssa.Function); ok {
 			return unwrapBound(f)
 		}
+	case *ssa.Call:
+		// a constructor of the operation: a function all of whose returns hand back the same function literal
+		if sc := x.Call.StaticCallee(); sc != nil && len(sc.Blocks) > 0 {
+			var found *ssa.Function
+			for _, b := range sc.Blocks {
+				ret, isR := b.Instrs[len(b.Instrs)-1].(*ssa.Return)
+				if !isR || len(ret.Results) != 1 {
+					continue
+				}
+				if _, isCall := stripChangeType(ret.Results[0]).(*ssa.Call); isCall {
+					return nil
+				}
+				f := funcOfValue(ret.Results[0])
+				if f == nil || (found != nil && found != f) {
+					return nil
+				}
+				found = f
+			}
+			return found
+		}
 	}
 	return nil
 }
